@@ -81,6 +81,14 @@ def gen_c14(tier, rng):
         for j in range(len(variants)):
             ops.append("pk eq v%d v%d" % (i, j))
     cases.append(Case("c14f", ops, True, ("one-field-differs",), meta={"fieldwise": len(variants)}))
+    # byte-identical non-empty payloads under types that are all "invalid" (a zero message-type or payload-type byte) but DIFFERENT:
+    # equality is field by field, so they are all unequal (and each equals itself)
+    tys = [0x0100, 0x0300, 0x0001, 0x0002, 0xFF00, 0x0101]
+    ops = [Pkt(t, b"\x11\x22\x33\x44").line("z%d" % i) for i, t in enumerate(tys)]
+    for i in range(len(tys)):
+        for j in range(len(tys)):
+            ops.append("pk eq z%d z%d" % (i, j))
+    cases.append(Case("c14z", ops, True, ("invalid-but-different-types",), meta={"eqclasses": [[i] for i in range(len(tys))], "noshrink": True}))
     # payloads whose size is a multiple of 65536 (the 16-bit wire length reads 0): equality must still look at the bytes
     ops = [Pkt(0x01FF, b"").line("z0").replace(" -", " gen:65536:1"), Pkt(0x01FF, b"").line("z1").replace(" -", " gen:65536:2"),
            Pkt(0x01FF, b"").line("z2").replace(" -", " gen:65536:1"), Pkt(0x01FF, b"").line("z3"), Pkt(None, None).line("z4")]
@@ -311,6 +319,15 @@ def c16_huge_if_cases(rng):
         ops.append(big2.line("p4"))
         ops += ["st s update p1", "st s update p2", "st s dump", "st s update p3", "st s dump", "st s update p4", "st s dump", "st s ifidx 1 10", "st s ifidx 1 20"]
         cases.append(Case("c16big", ops, nontrivial=True, tags=("if-status-of-64KiB-and-more",), meta={"noshrink": True}))
+    # updates whose timestamps go BACKWARDS (clock re-sync, reboot): the latest message wins, not the one with the largest timestamp
+    for kinds in (("cm", "if", "if", "if"), ("cm", "cm", "if", "if")):
+        ops, order = [], []
+        for k, kind in enumerate(kinds):
+            tag = 20 - k                                  # p20, p19, p18, p17: defined and applied in this order
+            ops.append(st_packet(rng, kind, 1, 10, 100 + tag).line("p%d" % tag))
+            order.append("st s update p%d" % tag)
+        ops += [x for o in order for x in (o, "st s dump")]
+        cases.append(Case("c16time", ops, nontrivial=True, tags=("timestamps-going-backwards",), meta={"noshrink": True}))
     # payload sizes that are an exact multiple of 65536 bytes (the 16-bit wire length reads 0), capture-module and interface status
     over = len(proto.cm_payload(desc=b"d"))
     cm = Pkt(0x0301, proto.cm_payload(desc=b"d", vendor=bytes([5]) * (65536 - over)), ver=1, dev=2, stream=1, seq=1, ts=101)
